@@ -832,9 +832,13 @@ impl Uiua {
     ) -> UiuaResult {
         let start_height = self.rt.stack.len();
         let sig = frame.sig;
+        #[cfg(feature = "verif_hooks")]
+        let verif_snap = self.verif_frame_enter(sig);
         self.rt.call_stack.push(frame);
         let res = self.exec(node.clone());
         let frame = self.rt.call_stack.pop().unwrap();
+        #[cfg(feature = "verif_hooks")]
+        self.verif_frame_exit(verif_snap, sig, res.is_ok(), &node);
         if let Err(mut err) = res {
             // Trace errors
             let span = self.asm.spans[frame.call_span].clone();
@@ -1680,6 +1684,79 @@ impl Uiua {
 }
 
 #[cfg(feature = "verif_hooks")]
+/// verif hook: what must be unchanged when a function / operand with a signature returns or fails
+#[cfg(feature = "verif_hooks")]
+pub(crate) struct VerifFrameSnap {
+    below: Vec<Value>,
+    under_below: Vec<Value>,
+    under_len: usize,
+    hidden: [usize; 5],
+}
+
+#[cfg(feature = "verif_hooks")]
+impl Uiua {
+    fn verif_frame_enter(&self, sig: Signature) -> Option<VerifFrameSnap> {
+        if !crate::verif::frame_monitor_on() {
+            return None;
+        }
+        let floor = self.rt.stack.len().saturating_sub(sig.args());
+        let ufloor = self.rt.under_stack.len().saturating_sub(sig.under_args());
+        Some(VerifFrameSnap {
+            below: self.rt.stack[..floor].to_vec(),
+            under_below: self.rt.under_stack[..ufloor].to_vec(),
+            under_len: self.rt.under_stack.len(),
+            hidden: [
+                self.rt.call_stack.len(),
+                self.rt.fill_stack.len(),
+                self.rt.unfill_stack.len(),
+                self.rt.fill_boundary_stack.len(),
+                self.rt.recur_stack.len(),
+            ],
+        })
+    }
+    fn verif_frame_exit(&self, snap: Option<VerifFrameSnap>, sig: Signature, ok: bool, node: &Node) {
+        let Some(snap) = snap else { return };
+        let mut bad: Vec<String> = Vec::new();
+        let st = &self.rt.stack;
+        if st.len() < snap.below.len() || st[..snap.below.len()] != snap.below[..] {
+            bad.push(format!("values beneath the {} arguments changed", sig.args()));
+        }
+        let us = &self.rt.under_stack;
+        // (an iterated operand that saves context does so once per iteration, to be popped by the matching
+        // iterated undo part: only a signature that claims NO context effect is held to the context stack)
+        if sig.under_args() == 0 && sig.under_outputs() == 0 {
+            if us.len() < snap.under_below.len() || us[..snap.under_below.len()] != snap.under_below[..] {
+                bad.push("context values changed".into());
+            }
+            if ok && us.len() != snap.under_len {
+                bad.push(format!("context stack height {} expected {}", us.len(), snap.under_len));
+            }
+        }
+        let hidden = [
+            self.rt.call_stack.len(),
+            self.rt.fill_stack.len(),
+            self.rt.unfill_stack.len(),
+            self.rt.fill_boundary_stack.len(),
+            self.rt.recur_stack.len(),
+        ];
+        if hidden != snap.hidden {
+            bad.push(format!("hidden stacks [call, fill, unfill, boundary, recur] {:?} expected {:?}", hidden, snap.hidden));
+        }
+        if !bad.is_empty() {
+            let mut shown = format!("{node:?}");
+            if shown.len() > 300 {
+                shown.truncate(300);
+            }
+            crate::verif::frame_violation(format!(
+                "{} {} of {sig}: {} [{shown}]",
+                if ok { "after the return" } else { "at the failure" },
+                "of a function",
+                bad.join("; ")
+            ));
+        }
+    }
+}
+
 impl Uiua {
     /// Sizes of the hidden stacks:
     /// [stack, under, call, local, recur, fill, unfill, fill_boundary]
